@@ -104,7 +104,8 @@ type Monitor struct {
 	// statement boundary and after a script nothing holds a slot)
 	throttle     *pqueue.Queue[struct{}]
 	throttleMax  int
-	throttleFree int    // slots known to be free at the last drain test
+	throttleFree int // slots known to be free at the last drain test
+	maxProbe     []int
 	cancel       func() // cancels the command context (Case.CancelAt)
 	Cancelled    bool
 }
@@ -175,8 +176,10 @@ var newNameRE = regexp.MustCompile(`^new(\d+)`)
 // itself on the model.
 func NewMonitor(w *World, parallel bool) (*Monitor, error) {
 	mo := &Monitor{w: w, parallel: parallel, last: -1, cur: make([]int, len(w.C.Scripts))}
+	mo.maxProbe = make([]int, len(w.C.Scripts))
 	for i := range mo.cur {
 		mo.cur[i] = -1
+		mo.maxProbe[i] = -1
 	}
 	s, err := w.Snapshot(nil)
 	if err != nil {
@@ -226,6 +229,9 @@ func (mo *Monitor) onArrive(e *rm.Entry) {
 			if si >= 0 && si < len(mo.cur) {
 				mo.cur[si] = k
 				mo.last = si
+				if k > mo.maxProbe[si] {
+					mo.maxProbe[si] = k
+				}
 			}
 		}
 		return
@@ -375,6 +381,9 @@ type Obs struct {
 	CmdErr    string // cobra: error returned by the command
 	CmdPanic  string // cobra: a Go panic left the command
 	Cancelled bool   // the harness cancelled the command context (Case.CancelAt)
+	// ProbeReached: per script the highest statement boundary whose probe arrived
+	// (-1 none; len(Stmts) = the boundary after the last statement)
+	ProbeReached []int
 	// cobra: drain test on the command's throttle after it returned (Max 0 = not run)
 	ThrottleFree, ThrottleMax int
 }
@@ -491,6 +500,7 @@ func Run(w *World, c Case, dry bool, cobra CobraFn) (*Obs, error) {
 	obs.ThrottleFree, obs.ThrottleMax = r.tFree, r.tMax
 	obs.Offenses, obs.Probes = mo.Offenses, mo.Probes
 	obs.Cancelled = mo.Cancelled
+	obs.ProbeReached = append([]int{}, mo.maxProbe...)
 	return obs, nil
 }
 
@@ -511,8 +521,13 @@ func runDirect(base context.Context, w *World, c Case, dry bool, mo *Monitor) []
 	}
 	rc := rcutil.New(w.Model, conf)
 	lvl := slog.LevelInfo
-	if c.Verbosity == "debug" || c.Verbosity == "trace" {
+	switch c.Verbosity {
+	case "debug", "trace":
 		lvl = slog.LevelDebug
+	case "warn":
+		lvl = slog.LevelWarn
+	case "error":
+		lvl = slog.LevelError
 	}
 	h, get := NewCapHandler(lvl)
 	logger := slog.New(h)
